@@ -360,3 +360,29 @@ B("C15.escape_line", ["C15", "C01"], CB, "bounded_escape_line", "CellBuffer::esc
   "never panics; quoted segments found as '\"'..next '\"'; text stored verbatim (without fillers) at the opening quote's cell; "
   "the segment's columns, quotes included, blanked; everything else untouched",
   "all column-expanded rows of <= 6 tokens (thorough 8) over {\", a, |, space, e-acute, wide CJK + NUL filler} (no backslash)")
+
+CM = "map/circle_map.rs"
+K("Q1.circle_art_geometry", ["C13", "C12"], CM, "check_circle_art_geometry", "CircleArt::radius / center / edge_increment_x / diameter",
+  "for every width 1..128, both edge cases, all half-integer offsets: radius = width/2; extent = [inc, width+inc]; centre.y = 2*offset_y; diameter = width",
+  assumes=["CircleArt::width replaced by an opaque integer-valued result (its contract: Q2)"])
+K("Q2.circle_art_width", ["C13"], CM, "check_circle_art_width", "CircleArt::width",
+  "n-cell-wide drawing: width n-1 (radius (n-1)/2); n when it starts flush with a slash (radius n/2)",
+  assumes=["CellBuffer::bounds replaced by an opaque result (the bounds of the art); the art itself is the empty string in the harness"])
+K("Q3.is_subset_of", ["C13"], CM, "check_is_subset_of", "circle_map::is_subset_of",
+  "matched <=> subset contained in big_set; unmatched = ascending indices of big_set elements not in subset",
+  kind="bounded", timeout=600, timeout_thorough=1200, bound="lists of length <= 2 (thorough: 3) over 4 distinct values (Verus: slice::contains / enumerate have no vstd specification)")
+B("Q4.catalogue_circles", ["C13", "C06", "C12"], CM, "bounded_catalogue_circles",
+  "Span::endorse / endorse_to_arcs_and_circles / circle_map::endorse_circle_span / CIRCLES_SPAN (real tables)",
+  "each of the 22 drawings, anywhere, alone or with unrelated content: one span, endorsed as exactly one circle and nothing else; radius (n-1)/2 or n/2; "
+  "extent = the drawing's extent; every character within 2.5 units (1.25 cells) of the circle",
+  "22 drawings x offsets (0..6)x(0..4) quick / (0..60)x(0..40) thorough x {alone, with unrelated text}", timeout=900, timeout_thorough=7200)
+
+SPAN = "buffer/cell_buffer/span.rs"
+K("A2.span_merge", ["C10", "C04"], SPAN, "check_span_merge", "Span::can_merge / is_adjacent / merge / merge_no_check",
+  "can_merge <=> an adjacent pair of cells; merge = concatenation in order; spans separated by a blank column or row never merge",
+  kind="bounded", bound="spans of 3 and 2 cells, all valid cells symbolic", timeout=600)
+K("N2.span_bounds_localize", ["C12", "C01", "C06", "C13"], SPAN, "check_span_bounds_localize", "Span::bounds / top_left / new / localize",
+  "bounds = per-axis min/max, None iff empty (top_left never reaches its expect on a non-empty span); localize subtracts the top-left cell; "
+  "localize(translate(s,d)) = localize(s)", kind="bounded", bound="spans of 3 cells (and the empty span), all valid cells symbolic", timeout=600)
+K("A2.span_extract_bounded", ["C10"], SPAN, "check_span_extract_bounded", "Span::is_bounded / hit_cell / extract",
+  "inclusive box tests per cell", kind="bounded", bound="spans of 3 cells", timeout=600)
